@@ -9,5 +9,7 @@ CONSTANTS
   Kinds = {"stream"}
   MaxEnv = 3
   MaxFaults = 1
+  MaxResign = 0
+  ResignMods = {"body"}
 INVARIANT VACINV
 CHECK_DEADLOCK FALSE
